@@ -43,6 +43,17 @@ def handle (op : String) (j : Json) : Option (Except String Json) :=
   | "c07.hc" => some do
     let cls ← parseCls (← J.field j "cls")
     .ok (J.ofOp (hermitianConjugated cls (← J.op (← J.field j "a"))))
+  | "c07.hc_interaction" => some do
+    let parseT := fun (j : Json) => J.listOf (fun e => do
+      match (← J.arr e) with
+      | [i, c] => do .ok ((← J.natList i), (← J.gq c))
+      | _ => .error "bad tensor entry") j
+    let c ← J.gq (← J.field j "constant")
+    let one ← parseT (← J.field j "one")
+    let two ← parseT (← J.field j "two")
+    let r := hcInteraction c one two
+    let ofT := fun (t : List (List Nat × GQ)) => J.ofList (fun (e : List Nat × GQ) => Json.arr #[J.ofNatList e.1, J.ofGQ e.2]) t
+    .ok (J.obj [("constant", J.ofGQ r.1), ("one", ofT r.2.1), ("two", ofT r.2.2)])
   | "c07.comm" => some do
     let cls ← parseCls (← J.field j "cls")
     let a ← J.op (← J.field j "a")
